@@ -12,13 +12,11 @@ use std::sync::atomic::{AtomicU64, Ordering};
 use std::time::{Duration, Instant};
 
 pub fn gen(r: &mut Rng, thorough: bool) -> String {
-    // several loops, or several plain threads submitting to one ring at once, are known-finding territory:
-    // most cases use one loop, coroutine callers and at most one plain thread
-    let risky = r.chance(1, 8);
-    let loops = if risky && r.chance(1, 2) { 2 } else { 1 };
+    // any number of loops (coroutine callers migrate between the loop threads), coroutine callers and plain threads
+    let loops = *r.pick(&[1u64, 1, 2, 2, 3, 4]);
     let cos = r.range(0, 6);
-    let threads = if risky && loops == 1 { r.range(1, 4) } else if cos == 0 { 1 } else { 0 };
-    let per = if thorough { r.range(20, 400) } else { r.range(5, 60) };
+    let threads = if cos == 0 { r.range(1, 4) } else { *r.pick(&[0u64, 0, 0, 1, 2, 3]) };
+    let per = if thorough { r.range(20, 200) } else { r.range(5, 60) };
     let mix = *r.pick(&["ok", "err", "mixed", "mixed", "ok+gap", "sock", "sock"]);
     let per = if mix.ends_with("+gap") { per.min(8) } else { per };
     format!("{loops} {cos} {threads} {per} {mix}")
@@ -28,6 +26,12 @@ static OK: AtomicU64 = AtomicU64::new(0);
 static WRONG: AtomicU64 = AtomicU64::new(0);
 static ERRS: AtomicU64 = AtomicU64::new(0);
 static DONE: AtomicU64 = AtomicU64::new(0);
+
+/// errno of the thread this coroutine is on *now*: the caller's frame migrates between loop threads, so the
+/// thread-local's address must not be one the compiler computed before a hooked call (std marks its
+/// `errno_location` as a `const` function)
+#[inline(never)]
+fn errno_now() -> i32 { unsafe { *libc::__errno_location() } }
 
 fn tcp_pair() -> (i32, i32) {
     use std::os::fd::IntoRawFd;
@@ -75,8 +79,8 @@ fn caller(id: u64, per: u64, mix: &str) {
             // a descriptor that is not open: the completion carries -EBADF
             let b = [1u8; 4];
             let r = open_coroutine_core::syscall::write(None, 987_654, b.as_ptr().cast(), 4);
-            let e = std::io::Error::last_os_error().raw_os_error();
-            if r == -1 && e == Some(libc::EBADF) { ERRS.fetch_add(1, Ordering::SeqCst); } else { WRONG.fetch_add(1, Ordering::SeqCst); }
+            let e = errno_now();
+            if r == -1 && e == libc::EBADF { ERRS.fetch_add(1, Ordering::SeqCst); } else { WRONG.fetch_add(1, Ordering::SeqCst); eprintln!("WRONG err-call: caller {id} call {k}: r={r} errno={e}"); }
         } else {
             // own pattern, own length: another call's completion would show as a wrong count or wrong bytes
             let len = 1 + ((id * 7 + k) % 23) as usize;
@@ -84,7 +88,7 @@ fn caller(id: u64, per: u64, mix: &str) {
             let w = open_coroutine_core::syscall::write(None, fds[1], pat.as_ptr().cast(), len);
             let mut back = vec![0u8; 64];
             let rd = open_coroutine_core::syscall::read(None, fds[0], back.as_mut_ptr().cast(), 64);
-            if w == len as isize && rd == len as isize && back[..len] == pat[..] { OK.fetch_add(1, Ordering::SeqCst); } else { WRONG.fetch_add(1, Ordering::SeqCst); }
+            if w == len as isize && rd == len as isize && back[..len] == pat[..] { OK.fetch_add(1, Ordering::SeqCst); } else { WRONG.fetch_add(1, Ordering::SeqCst); eprintln!("WRONG ok-call: caller {id} call {k}: len={len} w={w} rd={rd} errno={}", errno_now()); }
         }
     }
     unsafe { libc::close(fds[0]); libc::close(fds[1]); }
